@@ -47,6 +47,9 @@ Fixpoint ins_vote (who opt : Z) (l : list (Z * Z)) : list (Z * Z) :=
 Definition sort_votes (l : list (Z * Z)) : list (Z * Z) := fold_right (fun v acc => ins_vote (fst v) (snd v) acc) [] l.
 
 (* ================================================================ (2) correspondence *)
+(* what the translator read from the tree *)
+Definition tree_flags : cflags := mkF durations_error_returned quorum_error_panics_flag dynamic_veto_from_allowed.
+
 Definition to_op (h : hop) : cop :=
   match h with
   | HSubmit who ct => OSubmit who ct
@@ -76,7 +79,7 @@ Definition events_of (s s' : cstate) : list (Z * Z) :=
 
 Definition step_matches (s : cstate) (st : Z * Z * hop * obs) : bool * cstate :=
   let '(t, h, hp, o) := st in
-  match c_step durations_error_returned decide_q (mkC t h) (to_op hp) s with
+  match c_step tree_flags decide_q (mkC t h) (to_op hp) s with
   | Ok s' =>
       ((o_res o =? 0)
        && (match hp with HSubmit _ _ => o_new_id o =? next_id s | _ => true end)
